@@ -20,7 +20,8 @@ META = {
              'more member than the maximum; the same asset twice in a field; an already existing link (same and across '
              'instances). An illegal attempt is a violation iff no exception occurred up to and including '
              'add_association AND the model serialisation contains it; a legal attempt that is refused violates the '
-             '"expose" clause; non-trivial = language has >= 1 association and >= 1 defense; distinct = digest(spec)'),
+             '"expose" clause; non-trivial = language has >= 1 association and >= 1 defense; distinct = digest(spec)'
+             '; added strata: overriding defense re-declarations, same-named associations with the same field names, duplicate attempts after refused calls / with an empty other field / non-adjacent; languages with one field name at both ends (known finding)'),
     'assumptions': ['python-jsonschema-objects is trusted as a library; what is monitored is the schema the factory feeds it'],
     'shards': {'quick': 8, 'thorough': 16},
     'quotas': {
